@@ -333,6 +333,8 @@ class Run:
         self.assumptions = []
         self.known = [f for f in load_known_findings().get('findings', []) if f.get('property') == prop]
         self.wd = workdir(prop)
+        for old in __import__('glob').glob(os.path.join(VERIF, 'replays', '%s_%s_*.json' % (prop, tier))):
+            os.remove(old)
         self._distinct = set()
         self.rng = random.Random(seed)
 
